@@ -243,7 +243,10 @@ pub trait RiRefBufImpl: Sized + RiRefImpl {
 			Some(new_authority) => match parse::find_authority(bytes, 0) {
 				Ok(range) => unsafe { self.replace(range, new_authority.as_bytes()) },
 				Err(start) => {
-					if !bytes[start..].starts_with(b"/") {
+					let path_is_empty = bytes[start..]
+						.first()
+						.map_or(true, |b| matches!(b, b'?' | b'#'));
+					if !path_is_empty && !bytes[start..].starts_with(b"/") {
 						// VALIDITY: When an authority is present, the path must
 						//           be absolute.
 						unsafe {
@@ -311,7 +314,7 @@ pub trait RiRefBufImpl: Sized + RiRefImpl {
 				bytes[start..actual_start].copy_from_slice(b"/.");
 				bytes[actual_start..(actual_start + path.len())].copy_from_slice(path.as_bytes())
 			}
-		} else if has_authority && path.is_relative() {
+		} else if has_authority && path.is_relative() && !path.as_bytes().is_empty() {
 			// VALIDITY: When an authority is present, the path must be
 			//           absolute.
 			unsafe {
